@@ -41,7 +41,16 @@ def gen_edges(model, workers=8, timeout=3000, cfg="MC_gen.cfg"):
     ok = "Model checking completed. No error has been found." in out
     cfgs = parse_tagged(out, "CFG")
     edges = parse_tagged(out, "EDGE")
-    return ok, (cfgs[0] if cfgs else {}), edges, tlc_stats(out), out
+    st = tlc_stats(out)
+    try:
+        nonascii = any(ord(ch) > 127 for ch in open(os.path.join(SPEC, model + ".tla"), encoding="utf-8").read())
+    except Exception:
+        nonascii = False
+    if ok and nonascii and st.get("distinct", 0) > 8000:
+        ok = False; out += "\nTOOL: model %s contains non-ASCII text and has more than 8000 states: TLC's state queue may spill to disk and corrupt it\n" % model
+    if not ok:   # what went wrong is between thousands of EDGE lines
+        out = "\n".join(l for l in out.splitlines() if not l.startswith('<<"EDGE"'))
+    return ok, (cfgs[0] if cfgs else {}), edges, st, out
 
 def edge_class(e):
     """transition class: the command (verb, parameter shape) of the final step plus the verbs on the way"""
